@@ -40,7 +40,7 @@ CHECKS = {
     ),
     "C06": (
         "crash monitor: catch_unwind around translator and loader in process, exit status of the real binary at process level",
-        "Programs from the grammar generator without layout restrictions (any label case, DEC operands, .ORG anywhere, images beyond 256 bytes); whatever the real parser accepts is compiled and loaded under catch_unwind, and a sample goes through `2a-emulator verify` / `run`. Two crash families are genuine open defects and are listed in known_findings.json by (layout class, panic site).",
+        "Programs from the grammar generator without layout restrictions (any label case, DEC operands, .ORG anywhere, images beyond 256 bytes); whatever the real parser accepts is compiled and loaded under catch_unwind - into a new machine and into a machine that already held the previous programs of its batch - a sample goes through `2a-emulator verify` / `run`, and samples are loaded one after the other through the `load` command of the real interactive session (hook H5). Two crash families are genuine open defects and are listed in known_findings.json by (layout class, panic site).",
         "Trusted: nothing but the classification of a panicking program as well-formed / backward-.ORG / larger-than-RAM by the harness's own layout rules.",
         "DESIGN.md §3 C06",
     ),
@@ -64,7 +64,7 @@ CHECKS = {
     ),
     "C10": (
         "reference-model monitor (address-map model), exhaustive single operations + random sequences",
-        "All 256 addresses x 256 values written to a randomised bus and all 256 addresses read back; all 65 536 ordered write-address pairs; random read/write/set-input sequences checked after every operation against a map model; reads must leave the bus == its clone.",
+        "All 256 addresses x 256 values written to a randomised bus and all 256 addresses read back; all 65 536 ordered write-address pairs; random read/write/set-input sequences checked after every operation against a map model; reads must leave the bus == its clone; and reads issued by the running CPU (every read-only instruction form x source x every byte value x interrupt-status state) must leave the whole bus equal to its copy taken before the instruction.",
         "Trusted: the map model (only what C10 states).",
         "DESIGN.md §3 C10",
     ),
@@ -105,9 +105,9 @@ CHECKS = {
         "DESIGN.md §3 C17",
     ),
     "C16": (
-        "round-trip monitor: parse -> Display -> parse, AST equality",
-        "Seeded programs from the grammar generator (all forms/values, Unicode comments, long data lines, 40 labels, header comments) are parsed, rendered and parsed again; the ASTs must be equal line by line.",
-        "Trusted: nothing beyond the real parser on its first pass (checked by C03).",
+        "round-trip monitor: parse -> Display -> parse, AST equality; the same over the translator's listing and over the program pane of the real interactive session (hook H5)",
+        "Seeded programs from the grammar generator (all forms/values, Unicode comments, long data lines, 40 labels, header comments) are parsed, rendered and parsed again; the ASTs must be equal line by line. Samples are loaded through the `load` command of the headless session (also under one file name whose content is replaced between loads) and the pane lines reported by the driver must parse back to the program just loaded.",
+        "Trusted: nothing beyond the real parser on its first pass (checked by C03); hook H5 reports the pane's lines verbatim.",
         "DESIGN.md §3 C16",
     ),
 }
